@@ -4,13 +4,13 @@
 package load
 
 import (
-	"path/filepath"
-	"go/parser"
 	"fmt"
 	"go/ast"
+	"go/parser"
 	"go/token"
 	"go/types"
 	"os"
+	"path/filepath"
 	"sort"
 	"strings"
 
@@ -399,7 +399,8 @@ func LoadTypesOnly(repoDir string, overlay map[string][]byte, pats ...string) (m
 	return out, nil
 }
 
-// inlineSingleUseConditions is a behaviour-preserving desugaring applied to the module's own source before it is
+// inlineSingleUseConditions (and, in the same pass, the reading of a plain `func() { .. }()` statement as a block) is a
+// behaviour-preserving desugaring applied to the module's own source before it is
 // type-checked: a boolean that is declared immediately before an `if`, is that if's whole condition and is named
 // nowhere else in the function
 //
@@ -443,7 +444,7 @@ func inlineSingleUseConditions(repoDir string, overlay map[string][]byte) map[st
 			}
 			src = b
 		}
-		if !strings.Contains(string(src), ":=") {
+		if !strings.Contains(string(src), ":=") && !strings.Contains(string(src), "}()") {
 			continue
 		}
 		fset := token.NewFileSet()
@@ -468,6 +469,46 @@ func inlineSingleUseConditions(repoDir string, overlay map[string][]byte) map[st
 				if id, ok := n.(*ast.Ident); ok {
 					count[id.Name]++
 				}
+				return true
+			})
+			// `func() { stmts }()` as a statement, with nothing in it that depends on being a function of its own (no
+			// return, no defer, no recover): read as the block `{ stmts }`
+			ast.Inspect(fd.Body, func(n ast.Node) bool {
+				es, ok := n.(*ast.ExprStmt)
+				if !ok {
+					return true
+				}
+				call, ok := es.X.(*ast.CallExpr)
+				if !ok || len(call.Args) != 0 {
+					return true
+				}
+				lit, ok := call.Fun.(*ast.FuncLit)
+				if !ok || lit.Type.Results != nil || (lit.Type.Params != nil && len(lit.Type.Params.List) > 0) || lit.Type.TypeParams != nil {
+					return true
+				}
+				plain := true
+				ast.Inspect(lit.Body, func(m ast.Node) bool {
+					switch y := m.(type) {
+					case *ast.FuncLit:
+						return false
+					case *ast.ReturnStmt, *ast.DeferStmt, *ast.LabeledStmt:
+						plain = false
+					case *ast.BranchStmt:
+						if y.Label != nil {
+							plain = false
+						}
+					case *ast.CallExpr:
+						if id, isId := y.Fun.(*ast.Ident); isId && id.Name == "recover" {
+							plain = false
+						}
+					}
+					return plain
+				})
+				if !plain {
+					return true
+				}
+				edits = append(edits, edit{off(call.Fun.Pos()), off(lit.Body.Lbrace), ""})
+				edits = append(edits, edit{off(lit.Body.Rbrace) + 1, off(call.End()), ""})
 				return true
 			})
 			ast.Inspect(fd.Body, func(n ast.Node) bool {
